@@ -258,6 +258,25 @@ func c01classify(c *Ctx) {
 			}
 		}
 	}
+	// R14 (round 9): what is classified is the OUTCOME. A predicate that also consults a context (`acceptable(err) &&
+	// ctx.Err() == nil`) records a call whose caller gave up while the callee answered as a failure of the callee:
+	// cancellations by impatient clients open the breaker of a healthy store
+	var ctxBad []string
+	for f := range preds {
+		for _, b := range f.Blocks {
+			for _, ins := range b.Instrs {
+				call, ok := ins.(ssa.CallInstruction)
+				if !ok || !call.Common().IsInvoke() {
+					continue
+				}
+				if typeString(call.Common().Value.Type()) == "context.Context" {
+					ctxBad = append(ctxBad, fmt.Sprintf("%s: %s consults a context (%s): the caller's state, not the outcome, decides success or failure", c.P.Pos(call.Pos()), funcDisplay(f), call.Common().Method.Name()))
+				}
+			}
+		}
+	}
+	sort.Strings(ctxBad)
+	c.R.Check(len(ctxBad) == 0 && len(preds) >= 5, "C01.R14", "breaker acceptability predicates#outcome-only", "acceptability predicates classify the outcome only: none of them consults a context", "-", fmt.Sprintf("%d predicates; %s", len(preds), strings.Join(ctxBad, "; ")), ctxBad, len(preds))
 	sort.Strings(bad)
 	c.R.Check(len(bad) == 0 && len(preds) >= 5, rule, "breaker acceptability predicates#classification", "acceptability predicates compare the error with sentinels only through errors.Is / errors.As / errorx.In (identity comparison misses wrapped errors)", "-", fmt.Sprintf("%d predicates; %s", len(preds), strings.Join(bad, "; ")), bad, len(preds))
 }
